@@ -253,6 +253,27 @@ def phaseOfFrame : CDSFrame → Option Nat
 def frameOfPhase : Nat → Option CDSFrame
   | 0 => some .ZERO | 1 => some .TWO | 2 => some .ONE | _ => none
 
+/-- Frames of a CDS without programmed frameshift, in 5'→3' order, by the documented convention of
+    `construct_frames_from_location` (docstring example: blocks of 5, 4, 6 bases give `[0,2,0]`, `[1,1,2]`,
+    `[2,0,1]` for start frames 0, 1, 2): the 5'-most block carries the start frame `f0`; a later block carries
+    (bases of the CDS before it − f0) mod 3. -/
+def frameNat : CDSFrame → Int
+  | .ZERO => 0 | .ONE => 1 | .TWO => 2 | .NONE => -1
+
+def frameOfInt3 (v : Int) : CDSFrame := if v % 3 = 0 then .ZERO else if v % 3 = 1 then .ONE else .TWO
+
+def laterFrames (acc : Int) : List Nat → List CDSFrame
+  | [] => []
+  | [_] => []
+  | l :: more => frameOfInt3 (acc + l) :: laterFrames (acc + l) more
+
+def inFrame (blocks : List Blk) (strand : Strand) (frames : List CDSFrame) : Bool :=
+  let lens := (if strand = .minus then blocks.reverse else blocks).map fun b => b.2 - b.1
+  let fr := if strand = .minus then frames.reverse else frames
+  match fr with
+  | [] => blocks.isEmpty
+  | f0 :: _ => fr = f0 :: laterFrames (-(frameNat f0)) lens
+
 /-! ## Part 3 — reference decoder and the expected structure -/
 
 /-- insertion sort of strings (code-point order), used for canonical forms only -/
